@@ -878,7 +878,8 @@ func getStrHash(next *[]PathNode, key string, N int) *PathNode {
 			return s
 		}
 		h = (h + 1) % N
-		s = (*PathNode)(unsafe.Pointer(uintptr(unsafe.Pointer(s)) + sizePathNode))
+		// wrap around together with the index
+		s = (*PathNode)(rt.IndexPtr(*(*unsafe.Pointer)(unsafe.Pointer(next)), sizePathNode, h))
 	}
 	return nil
 }
@@ -888,7 +889,8 @@ func seekIntHash(next unsafe.Pointer, key uint64, N int) int {
 	s := (*PathNode)(rt.IndexPtr(next, sizePathNode, h))
 	for s.Path.t != 0 {
 		h = (h + 1) % N
-		s = (*PathNode)(rt.AddPtr(unsafe.Pointer(s), sizePathNode))
+		// wrap around together with the index
+		s = (*PathNode)(rt.IndexPtr(next, sizePathNode, h))
 	}
 	return h
 }
@@ -901,7 +903,8 @@ func getIntHash(next *[]PathNode, key uint64, N int) *PathNode {
 			return s
 		}
 		h = (h + 1) % N
-		s = (*PathNode)(rt.AddPtr(unsafe.Pointer(s), sizePathNode))
+		// wrap around together with the index
+		s = (*PathNode)(rt.IndexPtr(*(*unsafe.Pointer)(unsafe.Pointer(next)), sizePathNode, h))
 	}
 	return nil
 }
